@@ -9,7 +9,7 @@ import SmoothProofs.C17Lift
 
 open Lin Scalar
 
-namespace C17
+namespace C17P
 
 noncomputable def rotAxis (i : Fin 3) (t : ℝ) : Vec ℝ 4 :=
   match i with
@@ -101,4 +101,4 @@ theorem rot_z_matrix (t : ℝ) :
     simp [SO3.rot_z, zQuat]
   rw [this, SO3.matrix_canon, matrix_zQuat]
 
-end C17
+end C17P
